@@ -7,6 +7,7 @@
 #include <string.h>
 #include <errno.h>
 #include <sys/mman.h>
+#include <pthread.h>
 #include "myth/myth.h"
 #include "mvh.h"
 #define MYTH_VERIF 1
@@ -183,7 +184,15 @@ static __attribute__((noinline)) void nested_exit(int d, void *v) {
 static void maybe_yield(node *n, int k) {
   uint64_t h = mix(n->h, 1000 + k);
   if ((int)(h % 1000) < P[P_YIELD_PM]) {
-    switch ((h >> 12) % 6) {
+    switch ((h >> 12) % 7) {
+      case 6: {   /* a thread may change its own cancel state at any time (also while somebody detaches or joins it);
+                     the state itself is not judged here (no listed property speaks about it), only restored */
+        int old = PTHREAD_CANCEL_ENABLE;
+        myth_setcancelstate(PTHREAD_CANCEL_DISABLE, &old);
+        mvsim_user_point();
+        myth_setcancelstate(old, 0);
+        break;
+      }
       case 0: myth_yield(); break;
       case 1: myth_yield_ex(myth_yield_option_local_only); break;
       case 2: myth_yield_ex(myth_yield_option_local_first); break;
